@@ -82,8 +82,8 @@ def rule_J1(ctx):
                 if field in ('immutable', 'modified_length'):
                     # only reads on BitStore-like receivers matter; MXFPFormat.mxfp_overflow etc. are other fields
                     pass
-                if root.cls in classes or root.key in table:
-                    r.ok(f'{f.key}:{field}', reason=root.key in table)
+                if root.cls in classes or ctx.rk(root.key) in table:
+                    r.ok(f'{f.key}:{field}', reason=ctx.rk(root.key) in table)
                 else:
                     r.fail(f.key, x, f"reads '{field}', which only {sorted(classes) or sorted(table)} may consult: the result of this "
                            f"code now depends on {'the stream position' if field == '_pos' else 'how the object was built or shared'}",
@@ -117,7 +117,7 @@ def rule_J2(ctx):
                         rcache[(n[0], field)] = field_reads(ctx, n, field)
                     rd = rcache[(n[0], field)]
                     # writes are fine (new objects start at 0); the repr helper is the documented reader
-                    if rd and not (field == '_filename' and n[0] == 'bits:Bits._repr'):
+                    if rd and not (field == '_filename' and ctx.rk(n[0]) == 'bits:Bits._repr'):
                         bad = (n, field, rd[0])
                         break
                 if bad:
@@ -268,7 +268,8 @@ def rule_D1(ctx):
             name = 're-raise ' + name
         if name in DOCUMENTED:
             r.ok(f'{key}:{name}')
-        elif (key, name) in RAISE_REASONS:
+        elif (ctx.rk(key), name) in RAISE_REASONS:
+            key = ctx.rk(key)
             used_reasons.add((key, name))
             r.ok(f'{key}:{name}', reason=True, sample={'instance': key, 'raises': name, 'reason': RAISE_REASONS[(key, name)]})
         else:
